@@ -98,7 +98,7 @@ func keyString(sb *strings.Builder, v value) bool {
 			sb.WriteString("(" + v.t.String() + ")")
 			return keyString(sb, v.v)
 		}
-	case chan value:
+	case *schan:
 		sb.WriteString(fmt.Sprintf("c%p", v))
 	case rtype:
 		sb.WriteString("rt:" + v.t.String())
